@@ -383,7 +383,15 @@ func c14Body(x *explore.Ctx, ui int) {
 		// "only if": a client may be stricter than necessary about unusual-but-valid replies
 		// (extra tokens, repeated header lines); the canonical reply must be accepted
 		canonical := len(rUpg) == 1 && len(rConn) == 1 && strings.EqualFold(rUpg[0], "websocket") && strings.EqualFold(rConn[0], "upgrade")
-		if want && canonical {
+		// a reply that selects a subprotocol the client did not request is not one the property
+		// obliges the client to accept (RFC 6455 §4.1 tells it to fail the connection)
+		protoRequested := replyProto == ""
+		for _, sp := range subp {
+			if sp == replyProto {
+				protoRequested = true
+			}
+		}
+		if want && canonical && protoRequested {
 			x.Check(d.conn != nil, key("good-reply-rejected"), "reply proving acceptance rejected: %v", d.err)
 		} else if want {
 			x.Check(d.conn != nil || d.err != nil, key("conn-xor-err"), "neither connection nor error")
